@@ -8,7 +8,8 @@ Xpp(variant, cfg, gen, build=B)                             like xrl.Xrl but bui
 The lexer fails closed (LexError -> infrastructure failure) on any construct it cannot classify, so a new kind of
 wrapper cannot be skipped silently.
 """
-import os, re, hashlib, subprocess, sys
+import os, re, hashlib, subprocess, sys, threading
+import numpy as np
 from concurrent.futures import ThreadPoolExecutor
 sys.path.insert(0, os.path.dirname(os.path.abspath(__file__)))
 import build as _build
@@ -475,21 +476,134 @@ def build_xdrvpp(B, variant, cfg, G):
     return B.exe("xdrvpp", [], variant, cfg, extra=extra, cxx=True, extra_objs=objs)
 
 
-class Xpp(_xrl.Xrl):
-    """driver pool for xdrvpp; entry(e, cols, mode) runs one table entry crash-safely"""
+class Xpp:
+    """driver pool for xdrvpp.  Self-contained sibling of xrl.Xrl (same wire protocol through xrl.Driver, same column
+    preparation and crash-safe bisection) so that refactorings of Xrl's internals do not affect it."""
 
     def __init__(self, variant, cfg, G, nproc=None, build=None, env=None):
         self.B = build or _build.Build()
         self.variant, self.cfg, self.G = variant, cfg, G
-        self.sigs = {}
         self.exe = build_xdrvpp(self.B, variant, cfg, G)
         self.env = dict(env or {})
         if variant == "asan":
-            self.env.setdefault("ASAN_OPTIONS", "halt_on_error=0:detect_leaks=0:abort_on_error=0:print_summary=0:alloc_dealloc_mismatch=1")
+            self.env.setdefault("ASAN_OPTIONS", "halt_on_error=0:detect_leaks=0:abort_on_error=0:print_summary=0")
             self.env.setdefault("UBSAN_OPTIONS", "halt_on_error=0:print_stacktrace=1")
         self.nproc = nproc or min(16, os.cpu_count() or 4)
         self.drivers = []
         self.evals = 0
+
+    def _drv(self, k):
+        while len(self.drivers) <= k:
+            self.drivers.append(None)
+        if self.drivers[k] is None or self.drivers[k].p.poll() is not None:
+            self.drivers[k] = _xrl.Driver(self.exe, self.env)
+        return self.drivers[k]
+
+    @staticmethod
+    def _prep(sig, args):
+        pool, arrs = [], []
+        for c, a in zip(sig, args):
+            if c in "sS":
+                if isinstance(a, (str, bytes)) or a is None:
+                    a = [a]
+                a = list(a)
+                uniq = {}
+                idx = np.empty(len(a), dtype=np.int32)
+                for q, s in enumerate(a):
+                    if s is None:
+                        idx[q] = -1
+                    else:
+                        if s not in uniq:
+                            uniq[s] = len(pool); pool.append(s)
+                        idx[q] = uniq[s]
+                arrs.append(("i", idx))
+            else:
+                arrs.append(("d" if c == "d" else "i", np.atleast_1d(np.asarray(a))))
+        n = max(len(a) for _, a in arrs) if arrs else 1
+        out = []
+        for t, a in arrs:
+            if len(a) == 1 and n > 1:
+                a = np.repeat(a, n)
+            if len(a) != n:
+                raise ValueError("column length mismatch")
+            out.append((t, a))
+        return out, pool, n
+
+    def _run(self, opcode, name, sig, args, mode, chunk=200000):
+        cols, pool, n = self._prep(sig, args)
+        self.evals += n
+        if n <= chunk or self.nproc == 1:
+            return self._drv(0).request(opcode, name, mode, n, cols, pool)
+        bounds = list(range(0, n, chunk)) + [n]
+        res = [None] * (len(bounds) - 1)
+        errs = []
+
+        def work(k):
+            q = k
+            while q < len(res):
+                lo, hi = bounds[q], bounds[q + 1]
+                try:
+                    res[q] = self._drv(k).request(opcode, name, mode, hi - lo, [(t, a[lo:hi]) for t, a in cols], pool)
+                except Exception as ex:
+                    errs.append((lo, hi, ex)); return
+                q += self.nproc
+        for k in range(min(self.nproc, len(res))):
+            self._drv(k)                       # spawn outside the worker threads
+        ths = [threading.Thread(target=work, args=(k,)) for k in range(min(self.nproc, len(res)))]
+        for t in ths: t.start()
+        for t in ths: t.join()
+        if errs:
+            raise errs[0][2]
+        recs = np.concatenate([r[0] for r in res])
+        blobs = []
+        for q, r in enumerate(res):      # blob line indices are chunk-relative: rebase
+            if r[1]:
+                off = bounds[q]
+                if off == 0:
+                    blobs.append(r[1])
+                else:
+                    ls = []
+                    for l in r[1].split(b"\n"):
+                        if not l: continue
+                        a, _, b = l.partition(b"\t")
+                        ls.append((b"%d" % (int(a) + off) if a.isdigit() else a) + b"\t" + b)
+                    blobs.append(b"\n".join(ls) + b"\n")
+        return recs, b"".join(blobs)
+
+    def run_safe(self, opcode, name, sig, args, mode=0, max_crashes=25):
+        """like _run but survives crashing tuples: (recs, blob, crashed_indices, skipped_from)"""
+        try:
+            r, b = self._run(opcode, name, sig, args, mode)
+            return r, b, [], None
+        except _xrl.DriverDied:
+            pass
+        cols, pool, n = self._prep(sig, args)
+        out = np.zeros(n, dtype=_xrl.REC); crashed = []
+        d = lambda lo, hi: self._drv(0).request(opcode, name, mode, hi - lo, [(t, a[lo:hi]) for t, a in cols], pool)
+        pos, step, skipped = 0, 200000, None
+        while pos < n:
+            if len(crashed) >= max_crashes:
+                skipped = pos; break
+            hi = min(n, pos + step)
+            try:
+                r, b = d(pos, hi); out[pos:hi] = r; pos = hi; continue
+            except _xrl.DriverDied:
+                pass
+            lo_ok, hi_bad = pos, hi
+            while hi_bad - lo_ok > 1:
+                mid = (lo_ok + hi_bad) // 2
+                try:
+                    r, b = d(lo_ok, mid); out[lo_ok:mid] = r; lo_ok = mid
+                except _xrl.DriverDied:
+                    hi_bad = mid
+            crashed.append(lo_ok)
+            pos = lo_ok + 1
+        return out, b"", crashed, skipped
+
+    def close(self):
+        for d in self.drivers:
+            if d: d.close()
+        self.drivers = []
 
 
 def colsig(cols):
